@@ -107,4 +107,259 @@ theorem ipv4_stepL (g : Mem) (hg : ByteMem g) (p : Packet) (ctx : Ctx) (o l : Na
       · have e : o + g16 g (o + 2) - (o + g o % 16 * 4) = g16 g (o + 2) - g o % 16 * 4 := by omega
         simp [ipv4BoundLax, htl, hlt, e]
 
+/-- the layer recorded by the slice-mode loop names the unit at which the spec chain faults -/
+theorem chain_loop_layer (g : Mem) (hg : ByteMem g) (lim : LenSource) (l0 nh : Nat) (frag : Bool) (slots : ExtSlots) (o l : Nat) :
+    match (extsLoop g false l0 nh frag slots o l).stop, (Spec.chain g lim false nh frag o (o + l)).2 with
+    | some (_, ly), some f => StopLayer ly f.unit
+    | _, _ => True := by
+  fun_induction extsLoop g false l0 nh frag slots o l
+  case case1 frag slots o l =>
+    rw [Spec.chain]
+    simp [extsFail, mkFault, StopLayer]
+  case case2 h => simp at h
+  case case3 nh frag slots o l h0 hor _ h8 =>
+    rw [Spec.chain]
+    rcases hor with h60 | h43
+    · subst h60
+      simp [extsFail, mkFault, StopLayer, rawLayer, h8]
+    · subst h43
+      simp [extsFail, mkFault, StopLayer, rawLayer, h8]
+  case case4 nh frag slots o l h0 hor _ h8 hl =>
+    rw [Spec.chain]
+    rcases hor with h60 | h43
+    · subst h60
+      simp [extsFail, mkFault, StopLayer, rawLayer, h8, hl]
+    · subst h43
+      simp [extsFail, mkFault, StopLayer, rawLayer, h8, hl]
+  case case5 nh frag slots o l h0 hor _ h8 hl ih =>
+    rw [Spec.chain]
+    have e : o + l = o + (g (o + 1) + 1) * 8 + (l - (g (o + 1) + 1) * 8) := by omega
+    rw [← e] at ih
+    rcases hor with h60 | h43
+    · subst h60
+      simp only [show ¬ ((60 : Nat) = 0) by omega, if_false, if_true, Nat.add_sub_cancel_left, h8, hl, dite_false]
+      exact ih
+    · subst h43
+      simp only [show ¬ ((43 : Nat) = 0) by omega, show ¬ ((43 : Nat) = 60) by omega, if_false, if_true,
+        Nat.add_sub_cancel_left, h8, hl, dite_false]
+      exact ih
+  case case6 h _ _ => simp at h
+  case case7 frag slots o l _ h8 _ _ =>
+    rw [Spec.chain]
+    simp [extsFail, mkFault, StopLayer, h8]
+  case case8 frag slots o l _ h8 _ _ ih =>
+    rw [Spec.chain]
+    have e : o + l = o + 8 + (l - 8) := by omega
+    rw [← e] at ih
+    simp only [show ¬ ((44 : Nat) = 0) by omega, show ¬ ((44 : Nat) = 60) by omega, show ¬ ((44 : Nat) = 43) by omega,
+      if_false, if_true, Nat.add_sub_cancel_left, h8, dite_false, frag6_eq g hg o]
+    exact ih
+  case case9 h _ _ _ => simp at h
+  case case10 frag slots o l _ h12 _ _ _ =>
+    rw [Spec.chain]
+    simp [extsFail, mkFault, StopLayer, h12]
+  case case11 frag slots o l _ h12 hz _ _ _ =>
+    rw [Spec.chain]
+    have hz' : g (o + 1) = 0 := by omega
+    simp [extsFail, mkFault, StopLayer, h12, hz']
+  case case12 frag slots o l _ h12 hz hl _ _ _ =>
+    rw [Spec.chain]
+    have hz' : ¬ g (o + 1) = 0 := by omega
+    simp [extsFail, mkFault, StopLayer, h12, hz', hl]
+  case case13 frag slots o l _ h12 hz hl _ _ _ ih =>
+    rw [Spec.chain]
+    have hz' : ¬ g (o + 1) = 0 := by omega
+    have e : o + l = o + (g (o + 1) + 2) * 4 + (l - (g (o + 1) + 2) * 4) := by omega
+    rw [← e] at ih
+    simp only [show ¬ ((51 : Nat) = 0) by omega, show ¬ ((51 : Nat) = 60) by omega, show ¬ ((51 : Nat) = 43) by omega,
+      show ¬ ((51 : Nat) = 44) by omega, if_false, if_true, Nat.add_sub_cancel_left, h12, dite_false, hz', hl]
+    exact ih
+  case case14 nh frag slots o l h0 h1 h2 h3 =>
+    simp [extsDone]
+
+/-- the IPv6 step of the spec behind the boundary, in projection form -/
+theorem step_ipv6_eq (lax : Bool) (g : Mem) (p : Packet) (c : Ctx) (h40 : ¬ c.avail < 40) (hv : g c.off / 16 = 6)
+    (S : Nat) (lim' : LenSource) (inc : Bool)
+    (hr : (if g16 g (c.off + 4) = 0 ∧ c.avail > 40 then Except.ok (c.stop, LenSource.slice, false)
+           else bound lax c .ipv6Packet .ipv6HeaderPayloadLen 40 (40 + g16 g (c.off + 4))) = .ok (S, lim', inc)) :
+    Spec.step lax g p .ipv6 c =
+      ⟨setNet p (.ip
+          { v4 := false, hdr := ⟨c.off, 40⟩, auth := none,
+            exts := ⟨c.off + 40, (chain g (inherit c.lim lim') true (g (c.off + 6)) false (c.off + 40) S).1.off - (c.off + 40)⟩,
+            first := if (chain g (inherit c.lim lim') true (g (c.off + 6)) false (c.off + 40) S).1.off = c.off + 40 then none
+                     else some (g (c.off + 6)),
+            slots := ExtSlots.none,
+            pl := { num := (chain g (inherit c.lim lim') true (g (c.off + 6)) false (c.off + 40) S).1.next,
+                    frag := (chain g (inherit c.lim lim') true (g (c.off + 6)) false (c.off + 40) S).1.frag,
+                    src := lim',
+                    w := ⟨(chain g (inherit c.lim lim') true (g (c.off + 6)) false (c.off + 40) S).1.off,
+                          S - (chain g (inherit c.lim lim') true (g (c.off + 6)) false (c.off + 40) S).1.off⟩,
+                    inc := inc } }),
+        (match (chain g (inherit c.lim lim') true (g (c.off + 6)) false (c.off + 40) S).2 with
+          | some _ => .done
+          | none => if (chain g (inherit c.lim lim') true (g (c.off + 6)) false (c.off + 40) S).1.frag then .done
+                    else .tp (chain g (inherit c.lim lim') true (g (c.off + 6)) false (c.off + 40) S).1.next),
+        { off := (chain g (inherit c.lim lim') true (g (c.off + 6)) false (c.off + 40) S).1.off, stop := S,
+          lim := inherit c.lim lim', nExt := c.nExt },
+        (chain g (inherit c.lim lim') true (g (c.off + 6)) false (c.off + 40) S).2⟩ := by
+  simp only [Spec.step, h40, hv, ne_eq, not_true_eq_false, if_false, hr]
+  generalize chain g (inherit c.lim lim') true (g (c.off + 6)) false (c.off + 40) S = chf
+  obtain ⟨ch, f⟩ := chf
+  cases f <;> rfl
+
+theorem chain_walk_layer (g : Mem) (hg : ByteMem g) (lim : LenSource) (nh o l : Nat) :
+    match (extsWalk g false nh o l).stop, (Spec.chain g lim true nh false o (o + l)).2 with
+    | some (_, ly), some f => StopLayer ly f.unit
+    | _, _ => True := by
+  unfold extsWalk
+  by_cases h0 : nh = 0
+  · subst h0
+    simp only [if_true]
+    rw [Spec.chain]
+    unfold rawExtFromSlice
+    simp only [if_true, Nat.add_sub_cancel_left]
+    by_cases h8 : l < 8
+    · simp [h8, mkFault, StopLayer]
+    · simp only [h8, if_false, dite_false]
+      by_cases hl : l < (g (o + 1) + 1) * 8
+      · simp [hl, mkFault, StopLayer]
+      · simp only [hl, if_false, dite_false]
+        have e : o + l = o + (g (o + 1) + 1) * 8 + (l - (g (o + 1) + 1) * 8) := by omega
+        have := chain_loop_layer g hg lim l (g o) false
+          { hbh := some ⟨o, (g (o + 1) + 1) * 8⟩, dest := none, routing := none, finalDest := none, frag := none,
+            auth := none } (o + (g (o + 1) + 1) * 8) (l - (g (o + 1) + 1) * 8)
+        rw [← e] at this
+        exact this
+  · simp only [h0, if_false]
+    rw [chain_first_irrelevant g lim nh false o (o + l) h0]
+    exact chain_loop_layer g hg lim l nh false ExtSlots.none o l
+
+/-- the stop error `ipv6AfterHeaderLax` makes of a stop of the extension walk -/
+def v6Stop (src : LenSource) : Option (ExtErr × Layer) → Option (PErr × Layer)
+  | none => none
+  | some (.len e, ly) => some (.len ((e.withSrc src).addOffset 40), ly)
+  | some (e, ly) => some (extErrToPErr e, ly)
+
+theorem ipv6AfterHeaderLax_eq (g : Mem) (o l : Nat) (hp : Win) (src : LenSource) (inc : Bool)
+    (hm : ipv6BoundLax o l (g16 g (o + 4)) = (hp, src, inc)) :
+    ipv6AfterHeaderLax g false o l =
+      (mkV6 false o (g (o + 6)) hp (extsWalk g false (g (o + 6)) hp.o hp.l) src inc,
+        v6Stop src (extsWalk g false (g (o + 6)) hp.o hp.l).stop) := by
+  unfold ipv6AfterHeaderLax
+  simp only [hm]
+  generalize (extsWalk g false (g (o + 6)) hp.o hp.l).stop = st
+  cases st with
+  | none => rfl
+  | some x =>
+    obtain ⟨e, ly⟩ := x
+    cases e <;> rfl
+
+/-- the part of the IPv6 step behind the boundary: the chain and the resulting layer -/
+theorem ipv6_tailL (g : Mem) (hg : ByteMem g) (p : Packet) (ctx : Ctx) (l : Nat)
+    (hs : ctx.stop = ctx.off + l) (h40 : 40 ≤ l) (hv : g ctx.off / 16 = 6)
+    (L : Nat) (src : LenSource) (inc : Bool) (hsrc : src = .slice ∨ src = .ipv6HeaderPayloadLen)
+    (hr : (if g16 g (ctx.off + 4) = 0 ∧ ctx.avail > 40 then Except.ok (ctx.stop, LenSource.slice, false)
+           else bound true ctx .ipv6Packet .ipv6HeaderPayloadLen 40 (40 + g16 g (ctx.off + 4))) =
+             .ok (ctx.off + 40 + L, src, inc))
+    (hm : ipv6BoundLax ctx.off l (g16 g (ctx.off + 4)) = (⟨ctx.off + 40, L⟩, src, inc)) :
+    IpStepL g p ctx ctx.off .ipv6 (ipv6AfterHeaderLax g false ctx.off l) := by
+  have hav : ctx.avail = l := by unfold Ctx.avail; omega
+  unfold IpStepL
+  rw [step_ipv6_eq true g p ctx (by omega) hv _ src inc hr, ipv6AfterHeaderLax_eq g ctx.off l _ src inc hm]
+  simp only
+  have hw := chain_walk g hg (inherit ctx.lim src) (g (ctx.off + 6)) (ctx.off + 40) L
+  have hly := chain_walk_layer g hg (inherit ctx.lim src) (g (ctx.off + 6)) (ctx.off + 40) L
+  have hsuf := EpModel.Lemmas.Dec.extsWalk_suffix g false (g (ctx.off + 6)) (ctx.off + 40) L
+  generalize extsWalk g false (g (ctx.off + 6)) (ctx.off + 40) L = r at *
+  generalize Spec.chain g (inherit ctx.lim src) true (g (ctx.off + 6)) false (ctx.off + 40) (ctx.off + 40 + L) = chf at *
+  obtain ⟨ch, fo⟩ := chf
+  obtain ⟨h1, h2⟩ := hw
+  simp only at h1 h2 hly ⊢
+  subst h1
+  simp only
+  have e1 : r.rest.o - (ctx.off + 40) = L - r.rest.l := by omega
+  have e2 : ctx.off + 40 + L - r.rest.o = r.rest.l := by omega
+  have hp : setNet p (.ip
+      { v4 := false, hdr := ⟨ctx.off, 40⟩, auth := none, exts := ⟨ctx.off + 40, r.rest.o - (ctx.off + 40)⟩,
+        first := if r.rest.o = ctx.off + 40 then none else some (g (ctx.off + 6)), slots := ExtSlots.none,
+        pl := { num := r.next, frag := r.frag, src := src, w := ⟨r.rest.o, ctx.off + 40 + L - r.rest.o⟩, inc := inc } }) =
+      p.setNet (.ip (mkV6 false ctx.off (g (ctx.off + 6)) ⟨ctx.off + 40, L⟩ r src inc)) := by
+    simp only [setNet_eq, mkV6, extsFirst]
+    rw [e1, e2]
+    have hrw : (⟨r.rest.o, r.rest.l⟩ : Win) = r.rest := rfl
+    rw [hrw]
+    by_cases hx : r.rest.l = L
+    · have : r.rest.o = ctx.off + 40 := by omega
+      simp [hx, this]
+    · have : ¬ r.rest.o = ctx.off + 40 := by omega
+      simp [hx, this]
+  rw [hp]
+  refine ⟨_, _, _, rfl, by simp [mkV6]; omega, ?_⟩
+  cases hst : r.stop with
+  | none =>
+    rw [hst] at h2
+    cases fo with
+    | some f => exact absurd h2 (by simp)
+    | none =>
+      simp only [v6Stop, mkV6]
+      exact ⟨rfl, by simp; omega⟩
+  | some x =>
+    obtain ⟨e, ly⟩ := x
+    rw [hst] at h2 hly
+    cases fo with
+    | none => exact absurd h2 (by simp)
+    | some f =>
+      simp only at h2 hly
+      cases e with
+      | len le =>
+        simp only [v6Stop, IpStopRel]
+        refine ⟨hly, ?_⟩
+        simp only [ExtRel] at h2
+        obtain ⟨hrel, hsl⟩ := h2
+        obtain ⟨c1, c2, c3, c4, c5, c6⟩ := hrel
+        have hlim : f.lim = inherit ctx.lim src := by
+          rcases c6 with ⟨_, hl⟩ | ⟨hne, _⟩
+          · exact hl
+          · exact absurd hsl hne
+        refine ⟨c1, by simpa [LenError.addOffset, LenError.withSrc] using c2,
+          by simp [LenError.addOffset, LenError.withSrc]; omega,
+          by simpa [LenError.addOffset, LenError.withSrc] using c4,
+          by simpa [LenError.addOffset, LenError.withSrc] using c5, ?_⟩
+        simp only [LenError.addOffset, LenError.withSrc]
+        rcases hsrc with hs' | hs'
+        · left
+          subst hs'
+          simp [hlim, inherit]
+        · right
+          subst hs'
+          simp [hlim, inherit]
+      | hopByHop =>
+        simp only [ExtRel] at h2
+        exact ⟨hly, by simp [v6Stop, IpStopRel, extErrToPErr, ContentMatch, h2.1, h2.2]⟩
+      | authZero =>
+        simp only [ExtRel] at h2
+        exact ⟨hly, by simp [v6Stop, IpStopRel, extErrToPErr, ContentMatch, h2.1, h2.2]⟩
+/-- the IPv6 step of the lax walk against `ipv6AfterHeaderLax` (header checks passed) -/
+theorem ipv6_stepL (g : Mem) (hg : ByteMem g) (p : Packet) (ctx : Ctx) (o l : Nat) (hc : ctx.off = o)
+    (hs : ctx.stop = o + l) (h40 : 40 ≤ l) (hv : g o / 16 = 6) :
+    IpStepL g p ctx o .ipv6 (ipv6AfterHeaderLax g false o l) := by
+  subst hc
+  have hav : ctx.avail = l := by unfold Ctx.avail; omega
+  by_cases hz : g16 g (ctx.off + 4) = 0 ∧ l > 40
+  · refine ipv6_tailL g hg p ctx l hs h40 hv (l - 40) .slice false (Or.inl rfl) ?_ ?_
+    · have e : ctx.off + 40 + (l - 40) = ctx.off + l := by omega
+      simp [hav, hz, hs, e]
+    · simp [ipv6BoundLax, hz]
+  · by_cases hlt : l < 40 + g16 g (ctx.off + 4)
+    · refine ipv6_tailL g hg p ctx l hs h40 hv (l - 40) .slice true (Or.inl rfl) ?_ ?_
+      · have e : ctx.off + 40 + (l - 40) = ctx.off + l := by omega
+        simp only [hav, hz, if_false, Spec.bound, hlt, if_true, hs, e]
+        simp
+      · simp only [ipv6BoundLax, hz, if_false, hlt, if_true]
+    · refine ipv6_tailL g hg p ctx l hs h40 hv (g16 g (ctx.off + 4)) .ipv6HeaderPayloadLen false (Or.inr rfl) ?_ ?_
+      · have e : ctx.off + 40 + g16 g (ctx.off + 4) = ctx.off + (40 + g16 g (ctx.off + 4)) := by omega
+        simp only [hav, hz, if_false, Spec.bound, hlt, e]
+        simp
+      · simp only [ipv6BoundLax, hz, if_false, hlt]
+
 end EpModel.Lemmas.RefineLax
